@@ -63,6 +63,11 @@ class C12(Scenario):
             case["close_after"] = rng.choice([0, 0, 0, 1, 2, 3, 5, 8, 13, 30])
             case["consumer"] = rng.random() < 0.6
             case["rmroot"] = rng.random() < 0.2  # the watched root is deleted while the reader runs, then close()/stop()
+            if rng.random() < 0.3:
+                case["second_closer"] = rng.randrange(1, 6)
+                case["sched"]["line"] = True
+                if case["sched"].get("policy") != "pct" and not case["sched"].get("p_line"):
+                    case["sched"]["p_line"] = rng.choice([0.05, 0.2])
             if rng.random() < 0.4:
                 case["faults"]["short_read"] = [rng.choice([32, 64, 0])]
         elif mode == "construct":
@@ -236,6 +241,19 @@ class C12(Scenario):
         fa = sim.spawn(fsactor, "fsactor", "actor")
         for _ in range(case["close_after"]):
             sim.yield_point("wait")
+        other = None
+        if case.get("second_closer") and level in ("buffer", "emitter"):
+            # the same object is shut down from a second thread at the same time (unschedule() next to the emitter's own stop,
+            # two shutdown paths of an application): stop()/close() may be called more than once
+            def closer2():
+                for _ in range(case["second_closer"] - 1):
+                    sim.yield_point("wait2")
+                if level == "buffer":
+                    obj.close()
+                else:
+                    obj.stop()
+
+            other = sim.spawn(closer2, "closer2", "actor")
         if level == "buffer":
             obj.close()
         elif level == "emitter":
@@ -245,6 +263,8 @@ class C12(Scenario):
             obj.stop()
             obj.join()
         sim.block(lambda: fa.state == DONE, why="join-fsactor")
+        if other is not None:
+            sim.block(lambda: other.state == DONE, why="join-closer2")
         if consumer is not None:
             sim.block(lambda: consumer.state == DONE, why="join-consumer")
         expect_clean(sim, f"after-close:{level}")
